@@ -160,7 +160,11 @@ def check_voigt(case):
     scale = max(np.abs(C["ol"]).max(), np.abs(C["en"]).max())
     assemblage = [_core.MineralPhase(p) for p in phases]
     args = (mlist, assemblage, list(phi))
+    before = [([a.tobytes() for a in m.orientations], [f.tobytes() for f in m.fractions]) for m in mlist]
     out = sut(pydrex.voigt_averages, *args) if case["stiff"]["k"] == "default" else sut(pydrex.voigt_averages, *args, st_obj)
+    after = [([a.tobytes() for a in m.orientations], [f.tobytes() for f in m.fractions]) for m in mlist]
+    require(before == after, "voigt_averages modified the textures of the minerals it was given")
+    require(np.array_equal(np.asarray(st_obj.olivine), C["ol"]) and np.array_equal(np.asarray(st_obj.enstatite), C["en"]), "voigt_averages modified the stiffness tensors it was given")
     steps = case["steps"]
     require(out.shape == (steps, 6, 6), f"result shape {out.shape}, expected {(steps, 6, 6)}")
     worst = 0.0
